@@ -6,7 +6,7 @@ PROPS = {
     'C19': dict(
         driver='c19', flavour='asan', level='fault_enumeration',
         technique='deterministic simulation: seeded API scenarios on a simulated MemoryManager with single-allocation-failure enumeration (forked child per fault), fresh-transformer recovery oracle, ASan/UBSan',
-        level_text='Enumeration of single allocation faults (every allocation index in thorough tier, seeded sample in quick tier) over seeded scenarios of public-API operations on one simulated memory manager; oracle: no abnormal termination, no foreign/double free, no sanitizer report, failure surfaces as exception/status, fault-free balance is zero, a new transformer on the same manager works and is balanced. Sampling of scenarios, exhaustive over faults within a scenario (thorough). Stylesheets include one whose first child is an xsl:include of a file that is missing or not XML from its first byte, so that a refused allocation can land in the clean-up of a compile that fails inside the include. Stylesheets include one whose first child is an xsl:include of a file that is missing or not XML from its first byte, so that a refused allocation can land in the clean-up of a compile that fails inside the include.',
+        level_text='Enumeration of single allocation faults (every allocation index in thorough tier, seeded sample in quick tier) over seeded scenarios of public-API operations on one simulated memory manager; oracle: no abnormal termination, no foreign/double free, no sanitizer report, failure surfaces as exception/status, fault-free balance is zero, a new transformer on the same manager works and is balanced. Sampling of scenarios, exhaustive over faults within a scenario (thorough). Stylesheets include one whose first child is an xsl:include of a file that is missing or not XML from its first byte, so that a refused allocation can land in the clean-up of a compile that fails inside the include.',
         level_note='Trusts: the refused allocation throws xercesc::OutOfMemoryException; Xerces-C/ICU are uninstrumented system binaries; scenarios come from the generator in sim/gen.hpp; one fault per execution.',
         design_ref='DESIGN.md section 7 (C19), 3.1, 5',
         runs=dict(quick=192, thorough=1920), nchunks=dict(quick=8, thorough=16),
